@@ -98,20 +98,6 @@ Proof. destruct (width_cases ec k) as [H|[H|[H|H]]]; rewrite H; eauto. Qed.
 Lemma width_ge9 ec k : 512 <= 2 ^ N.of_nat (width ec k).
 Proof. destruct (width_cases ec k) as [H|[H|[H|H]]]; rewrite H; cbn; lia. Qed.
 
-(* every code fits the width of its position *)
-Fixpoint fits (ec : bool) (k : N) (cs : list N) : Prop :=
-  match cs with
-  | [] => True
-  | c :: cs' => c < 2 ^ N.of_nat (width ec k) /\ fits ec (if c =? CLEAR then 0 else k + 1) cs'
-  end.
-
-(* a code sequence up to and including its first EOD marker *)
-Fixpoint cut (cs : list N) : list N :=
-  match cs with
-  | [] => []
-  | c :: cs' => if c =? EOD then [EOD] else c :: cut cs'
-  end.
-
 Theorem unpack_pack ec : forall cs k rest, fits ec k cs -> In EOD cs ->
   unpack ec k (width ec k) 0 (pack ec k cs ++ rest) = cut cs.
 Proof.
